@@ -49,6 +49,40 @@ def oracle(params, mn, mx, pieces, runs):
     return bad
 
 
+def reuse_probe(case):
+    """'never by earlier calls': one adapter object used again after an abandoned run, and two runs consumed alternately,
+    must give what a fresh adapter gives."""
+    from replicat.utils.adapters import gclmulchunker
+    key = bytes.fromhex(case['key']) or None
+    pieces = [bytes.fromhex(p) for p in case['pieces']]
+    pieces2 = [bytes.fromhex(p) for p in case['pieces2']]
+    mn, mx = case['mn'], case['mx']
+    fresh = [bytes(c) for c in gclmulchunker(min_length=mn, max_length=mx)(iter(pieces2), params=key)]
+    ch = gclmulchunker(min_length=mn, max_length=mx)
+    g = ch(iter(pieces), params=key)
+    for _ in range(2):
+        if next(g, None) is None:
+            break
+    g.close()
+    again = [bytes(c) for c in ch(iter(pieces2), params=key)]
+    if again != fresh:
+        return 'the same adapter object used again after an abandoned run cuts differently from a fresh adapter'
+    ch2 = gclmulchunker(min_length=mn, max_length=mx)
+    g1, g2 = ch2(iter(pieces), params=key), ch2(iter(pieces2), params=key)
+    o1, o2 = [], []
+    while True:
+        a, b = next(g1, None), next(g2, None)
+        if a is None and b is None:
+            break
+        if a is not None:
+            o1.append(bytes(a))
+        if b is not None:
+            o2.append(bytes(b))
+    if o2 != fresh or b''.join(o1) != b''.join(pieces):
+        return 'two runs on one adapter object consumed alternately interfere with each other'
+    return None
+
+
 def head_part(chunks, total, mx):
     out, pos = [], 0
     for c in chunks:
@@ -215,6 +249,10 @@ def check_cases(cases, rep: Report, with_model=True):
                                    f'(min {mn}, max {mx}, {total} bytes): guard 0x00 -> {[len(c) for c in runs["guard00"]]}, '
                                    f'guard 0xff -> {[len(c) for c in runs["guardff"]]}',
                                    'signature': dict(sig, kind='junk'), 'replay': case})
+        if idx % 4 == 0:
+            msg = reuse_probe(case)
+            if msg:
+                rep.violations.append({'what': msg + f' (min {mn}, max {mx})', 'signature': dict(sig, kind='earlier_calls'), 'replay': case})
         h1, h2 = head_part(runs['guard00'], total, mx), head_part(runs['seg2'], total, mx)
         if h1 != h2 or b''.join(runs['seg2']) != b''.join(pieces):
             rep.violations.append({'what': f'chunks outside the tail zone depend on the segmentation (min {mn}, max {mx}): {h1} vs {h2}',
